@@ -27,7 +27,8 @@ def _restore():
 
 atexit.register(_restore)
 for sid in ids:
-    d = os.path.join(HERE, 'seeded', sid)
+    d = sid if '/' in sid else os.path.join(HERE, 'seeded', sid)   # a path tests a candidate seed that is not installed yet
+    sid = os.path.basename(d.rstrip('/'))
     pf = os.path.join(d, 'patch.diff')
     if not os.path.exists(pf):
         continue
